@@ -467,11 +467,22 @@ func (e *Engine) assert(v value, label string) {
 	e.nontriv = true
 	neg := Not(c)
 	var m map[string]uint64
-	r, _ := e.query(neg, false, e.cfg.AssertTimeMs)
+	var r string
 	used := "z3"
-	if r == "unknown" && e.cfg.FallbackMs > 0 {
+	if neg.fp && e.cfg.FallbackMs > 0 {
+		// floating-point obligations: cvc5 first (measured 3-10x faster than z3 on FP), z3 second
 		r, _ = e.queryFallback(neg, false, e.cfg.FallbackMs)
 		used = "cvc5"
+		if r == "unknown" {
+			r, _ = e.query(neg, false, e.cfg.AssertTimeMs)
+			used = "z3"
+		}
+	} else {
+		r, _ = e.query(neg, false, e.cfg.AssertTimeMs)
+		if r == "unknown" && e.cfg.FallbackMs > 0 {
+			r, _ = e.queryFallback(neg, false, e.cfg.FallbackMs)
+			used = "cvc5"
+		}
 	}
 	if r == "sat" {
 		// full path condition, for a complete model
@@ -555,7 +566,7 @@ func (e *Engine) runPath(prefix []dec) {
 					}
 				case string:
 					kind, msg = "panic", p
-					if isEngineTypeError(msg) || strings.HasPrefix(msg, "unexpected") || strings.HasPrefix(msg, "no code for function") || strings.HasPrefix(msg, "get: no value") {
+					if isEngineTypeError(msg) || strings.HasPrefix(msg, "unexpected") || strings.HasPrefix(msg, "unsupported conversion") || strings.HasPrefix(msg, "cannot convert") || strings.HasPrefix(msg, "no code for function") || strings.HasPrefix(msg, "get: no value") {
 						kind = "unsupported"
 						msg = "engine: " + msg + " @ " + i.where()
 					}
